@@ -102,6 +102,9 @@ def run(pid, tier, seed, world):
     try:
         if pid == 'C11':
             out += c11_lexer_class(world)
+        if pid == 'C17':
+            from .lockstep import c17_obligations
+            out += c17_obligations(tier, seed)
         try:
             from . import extras_tables as T
             out += T.run(pid, tier, seed, world)
